@@ -46,6 +46,7 @@ func main() {
 		for _, bw := range worlds {
 			bw.srv.Close()
 		}
+		closeConcWorlds()
 	}()
 
 	if c.Replay != "" {
@@ -54,6 +55,14 @@ func main() {
 			panic(err)
 		}
 		fmt.Printf("replay kind=%s\n", k.Kind)
+		if k.Kind == "concurrent" {
+			var cs ConcScn
+			if err := c.LoadReplay(&cs); err != nil {
+				panic(err)
+			}
+			runConc(c, cs, true)
+			return
+		}
 		var sc Scn
 		if err := c.LoadReplay(&sc); err != nil {
 			panic(err)
@@ -63,7 +72,7 @@ func main() {
 	}
 
 	c.Res.Exhaustive = true
-	c.Res.Rule = "advertisement chains of length 0..5 (quick; 6 sampled) / 0..8 (thorough): head queried or WithHeadAdCid at every position x stop {none, every position incl. the head, foreign CID} given as latest sync / WithStopAdCid / with WithAdsResync / both x depth limit {none,1,k-1,k,k+1} (k = blocks from head to stop) placed as AdsDepthLimit / FirstSyncDepth / ScopedDepthLimit x segment size {off,1,2,k-1,k,k+1} as SegmentDepthLimit / ScopedSegmentDepthLimit, hook general / scoped / silent / none and the pre-stored subset rotating through all 2^n subsets; the full decision table of option resolution on a 3-chain (432 combinations); all 2^n pre-stored subsets for n <= 5 on fixed requests; entries chains of length 0..5 from every position x depth x segment size; SyncOneEntry at every position; SyncHAMTEntries over trees (direct and nested links) with all pre-stored subsets; non-strict advertisement selector over ads with entries; publisher not serving a block (pre-stored or not); two-sync sequences on one subscriber with a growing chain; histories with RemoveHandler and idle-cleaner expiry (IdleHandlerTTL 60 ms) between syncs, with GetLatestSync observed after every step; WithLastKnownSync as a source of the stop point (128 decision-table rows); histories in which the publisher withdraws a block so that a sync fails part way, restores it, and the same subscriber syncs again (other head / stop / depth, entries syncs in between); chains of length 1..7 driven by the library's own dagsync.MakeGeneralBlockHook with every segment size 1..n+1; Syncer.Sync called directly with selectors built by DagsyncSelector / ExploreRecursiveWithStop / ExploreRecursiveWithStopNode (root at every position x every stop link x limit none/1/2/k/k+1, chains, a tree, the non-strict ad world); the retryable HTTP client on a sample; publisher-update-during-head-request schedules (a head request parked in the publisher's Sign while SetRoot moves the root, then queried-head and explicit-head syncs on fresh and existing subscribers). " +
+	c.Res.Rule = "advertisement chains of length 0..5 (quick; 6 sampled) / 0..8 (thorough): head queried or WithHeadAdCid at every position x stop {none, every position incl. the head, foreign CID} given as latest sync / WithStopAdCid / with WithAdsResync / both x depth limit {none,1,k-1,k,k+1} (k = blocks from head to stop) placed as AdsDepthLimit / FirstSyncDepth / ScopedDepthLimit x segment size {off,1,2,k-1,k,k+1} as SegmentDepthLimit / ScopedSegmentDepthLimit, hook general / scoped / silent / none and the pre-stored subset rotating through all 2^n subsets; the full decision table of option resolution on a 3-chain (432 combinations); all 2^n pre-stored subsets for n <= 5 on fixed requests; entries chains of length 0..5 from every position x depth x segment size; SyncOneEntry at every position; SyncHAMTEntries over trees (direct and nested links) with all pre-stored subsets; non-strict advertisement selector over ads with entries; publisher not serving a block (pre-stored or not); two-sync sequences on one subscriber with a growing chain; histories with RemoveHandler and idle-cleaner expiry (IdleHandlerTTL 60 ms) between syncs, with GetLatestSync observed after every step; WithLastKnownSync as a source of the stop point (128 decision-table rows); histories in which the publisher withdraws a block so that a sync fails part way, restores it, and the same subscriber syncs again (other head / stop / depth, entries syncs in between); chains of length 1..7 driven by the library's own dagsync.MakeGeneralBlockHook with every segment size 1..n+1; Syncer.Sync called directly with selectors built by DagsyncSelector / ExploreRecursiveWithStop / ExploreRecursiveWithStopNode (root at every position x every stop link x limit none/1/2/k/k+1, chains, a tree, the non-strict ad world); the retryable HTTP client on a sample; publisher-update-during-head-request schedules (a head request parked in the publisher's Sign while SetRoot moves the root, then queried-head and explicit-head syncs on fresh and existing subscribers); concurrency of the per-publisher latest-sync record (GOMAXPROCS >= 4): 8 x 250 and 4 x 50 SetLatestSync calls for distinct peers released together and read back, and 6 / 8 publishers synced concurrently on one Subscriber (with and without a goroutine calling SetLatestSync for 1500 other peers) followed by GetLatestSync = head and a follow-up sync that reports nothing, for every publisher. " +
 		"non-trivial = a call that reported >= 2 blocks under a stop, a depth limit, segmentation or pre-stored blocks"
 	genDecisionTable(c)
 	genAdChains(c)
@@ -79,4 +88,5 @@ func main() {
 	genGeneralHook(c)
 	genSelectors(c)
 	genHeadRace(c)
+	genConcurrent(c)
 }
